@@ -164,8 +164,9 @@ def addr_of(cx, n):
         bs = base
         while bs.get("kind") in ("ParenExpr", "ImplicitCastExpr") and bs.get("castKind") in (None, "LValueToRValue", "NoOp") and bs.get("inner"):
             bs = bs["inner"][0]
-        if bs.get("kind") == "DeclRefExpr":
-            return None                      # param->field: the routine's own object, a variable (a pointer that is CAST first is memory)
+        if bs.get("kind") == "DeclRefExpr" and (bs.get("referencedDecl") or {}).get("kind") != "VarDecl":
+            return None                      # param->field: the routine's own object, a variable (a pointer that is CAST first, or a
+                                             # LOCAL pointer variable - it was computed from some buffer address - is memory)
         qb = qual(base.get("type"))
         if not is_ptr(qb):
             return None
@@ -197,6 +198,9 @@ def expr(cx, n):
         if ck in ("LValueToRValue", "NoOp", "BitCast", "FunctionToPointerDecay"):
             return expr(cx, inner[-1])
         if ck == "ArrayToPointerDecay":
+            a = addr_of(cx, inner[-1])
+            if a is not None:
+                return "(CCast u64 %s)" % a
             t = cx.text(inner[-1])
             return "(CVar u64 %s)" % coq_s("&" + t) if t else "CUnknown"
         if ck == "NullToPointer":
@@ -229,6 +233,9 @@ def expr(cx, n):
     if k == "UnaryOperator":
         op = n.get("opcode")
         if op == "&":
+            a = addr_of(cx, inner[0]) if inner else None
+            if a is not None:
+                return "(CCast u64 %s)" % a          # &p->f, &p[i] through a pointer into memory: the address itself
             t = cx.text(n)
             return "(CVar u64 %s)" % coq_s(t) if t else "CUnknown"
         u = {"-": "UNeg", "~": "UNot", "!": "ULNot", "+": None}.get(op, "?")
@@ -279,6 +286,19 @@ def expr(cx, n):
         nm = (callee.get("referencedDecl") or {}).get("name", "?")
         if nm in ("__uint16_identity", "__uint32_identity", "__uint64_identity") and ty and len(inner) == 2:
             return "(CCast %s %s)" % (ty, expr(cx, inner[1]))          # le16toh & co on a little-endian host
+        bs = {"ntohs": 16, "htons": 16, "__bswap_16": 16, "ntohl": 32, "htonl": 32, "__bswap_32": 32, "__bswap_64": 64}.get(nm)
+        if bs and len(inner) == 2:
+            # byte swap written out with shifts and masks in the unsigned 64-bit type, then converted to the result type
+            x = "(CCast u64 (CCast (mkty false %d) %s))" % (bs, expr(cx, inner[1]))
+            terms = []
+            nb = bs // 8
+            for i in range(nb):
+                byte = "(CBin OAnd u64 (CBin OShr u64 %s (CLit s32 %d)) (CLit u64 255))" % (x, 8 * i)
+                terms.append("(CBin OShl u64 %s (CLit s32 %d))" % (byte, 8 * (nb - 1 - i)))
+            e = terms[0]
+            for t in terms[1:]:
+                e = "(CBin OOr u64 %s %s)" % (e, t)
+            return "(CCast %s %s)" % (ty or "(mkty false %d)" % bs, e)
         return "(CCall %s %s [%s])" % (ty or "s32", coq_s(nm), "; ".join(expr(cx, a) for a in inner[1:]))
     return "CUnknown"
 
@@ -327,6 +347,25 @@ def sites_of(cx, fn):
                         target = cx.text(b["inner"][0])
                     if target is None:
                         continue
+                    # memcpy(&x, src, sizeof x) into an integer object is a little-endian load of x's type from src
+                    if nm == "memcpy" and i == 0 and len(inner) == 4 and b.get("kind") == "UnaryOperator":
+                        lq = qual(b["inner"][0].get("type"))
+                        lt = cx.cty(lq)
+                        szv = astq.const_value(inner[3])
+                        if szv is None:
+                            m_ = re.fullmatch(r"\(CLit u64 (\d+)\)", args[2])
+                            szv = int(m_.group(1)) if m_ else None
+                        if lt and not is_ptr(lq) and not is_arr(lq) and szv is not None and szv * 8 == lt[1]:
+                            srcn = inner[2]
+                            while srcn.get("kind") in ("ParenExpr", "ImplicitCastExpr", "CStyleCastExpr") and srcn.get("castKind") in (None, "BitCast", "NoOp") and srcn.get("inner"):
+                                srcn = srcn["inner"][0]
+                            sq = qual((srcn.get("inner") or [{}])[0].get("type")) if srcn.get("kind") == "UnaryOperator" and srcn.get("opcode") == "&" else None
+                            if sq and cx.cty(sq) and not is_ptr(sq) and not is_arr(sq) and cx.cty(sq)[1] == lt[1]:
+                                # memcpy(&x, &y, sizeof x) between integer objects of one width: x = y (same representation)
+                                res.append(sset(key("load:" + target), target, "(CCast %s %s)" % (cx.tystr(lq), expr(cx, srcn["inner"][0]))))
+                            else:
+                                res.append(sset(key("load:" + target), target, "(CLoad %s %s)" % (cx.tystr(lq), args[1])))
+                            continue
                     pt = ptypes[i] if i < len(ptypes) else ""
                     if re.search(r"\bconst\b[^*]*\*\s*(restrict|__restrict)?\s*$", pt):
                         continue            # pointer to const: the callee only reads
@@ -449,7 +488,63 @@ def sites_of(cx, fn):
             return calls_in(n)
         if k in ("ImplicitCastExpr", "CStyleCastExpr", "ParenExpr") and inner:
             return visit(inner[0])
+        if k == "BreakStmt":
+            return ["SBreak"]
+        if k == "SwitchStmt" and len(inner) >= 2:
+            return switch(n)
         return ["(SOther %s)" % coq_s(k or "?")]
+
+    def switch(n):
+        inner = n.get("inner") or []
+        kk = key("switch")
+        scrut = expr(cx, inner[0])
+        out.append((kk, scrut))
+        comp = inner[-1]
+        if comp.get("kind") != "CompoundStmt":
+            return ["(SOther \"switch without a block\")"]
+        groups = []            # (labels or None for default, [statement nodes])
+        for c in comp.get("inner") or []:
+            labels = []
+            is_default = False
+            node = c
+            started = False
+            while node.get("kind") in ("CaseStmt", "DefaultStmt"):
+                started = True
+                ci = node.get("inner") or []
+                if node["kind"] == "CaseStmt":
+                    v = astq.const_value(ci[0]) if ci else None
+                    if v is None:
+                        return ["(SOther \"switch with a non-constant label\")"]
+                    labels.append(v)
+                    node = ci[-1] if len(ci) >= 2 else {}
+                else:
+                    is_default = True
+                    node = ci[-1] if ci else {}
+            if started:
+                groups.append([labels, is_default, [node] if node else []])
+            elif groups:
+                groups[-1][2].append(c)
+            else:
+                return ["(SOther \"statement before the first case\")"]
+        # stacked labels whose own statement is empty were merged by clang's nesting; a group must end in break / return
+        cases, default = [], []
+        for gi, (labels, is_default, stmts) in enumerate(groups):
+            body = []
+            for st in stmts:
+                body += visit(st)
+            last = stmts[-1] if stmts else {}
+            while last.get("kind") == "CompoundStmt" and last.get("inner"):
+                last = last["inner"][-1]
+            if last.get("kind") not in ("BreakStmt", "ReturnStmt") and gi != len(groups) - 1:
+                return ["(SOther \"switch with fall-through\")"]
+            if is_default:
+                default = body
+                if labels:
+                    cases.append((labels, body))
+            else:
+                cases.append((labels, body))
+        cs = lst(["(%s, %s)" % (lst([zl(v) for v in labels]), lst(body)) for labels, body in cases])
+        return ["(SSwitch %s %s %s %s)" % (coq_s(kk), scrut, cs, lst(default))]
 
     body = [c for c in fn["inner"] if c.get("kind") == "CompoundStmt"]
     tree = block(body[0]) if body else []
